@@ -1,7 +1,7 @@
 /-
 C13 — which paths `git lfs fsck --pointers` expects to hold a pointer (lfs/gitscanner_tree.go:
-catFileBatchTreeForPointers builds an include list and an exclude list from the attribute lines and asks
-filepathfilter.Filter.Allows with default false), against Git's own rule (the LAST line that matches the path
+catFileBatchTreeForPointers builds an ordered list of rules from the attribute lines, attrRules.Allows lets the
+last matching one decide), against Git's own rule (the LAST line that matches the path
 and says something about `filter` decides).  The lines are seen from ONE path: `hit` says whether the line's
 pattern matches that path (pattern matching itself is wildmatch's business; the correspondence check computes
 `hit` for the harness's patterns and compares the outcome with what fsck names).  Core-only.
@@ -19,94 +19,86 @@ def gitSays : List Line → Bool
   | [] => false
   | l :: rest => if l.hit && l.hasFilter then (if (rest.any fun m => m.hit && m.hasFilter) then gitSays rest else l.lfs) else gitSays rest
 
-/-- fsck: some matching line is filter=lfs, and no matching line sets another filter (or unsets it).
-    A line without `filter` (e.g. `*.dat lockable`) is on neither list (D71). -/
+/-- fsck (since D21 was repaired): the rules are walked in order — the files higher up first, then line by line — and
+    every matching line that mentions `filter` overrides what was decided so far.  A line without `filter`
+    (`*.dat lockable`) is no rule at all (D71). -/
 def fsckSays (ls : List Line) : Bool :=
-  (ls.any fun l => l.hit && l.hasFilter && l.lfs) && !(ls.any fun l => l.hit && l.hasFilter && !l.lfs)
+  ls.foldl (fun acc l => if l.hit && l.hasFilter then l.lfs else acc) false
 
-/-- no false expectation: where fsck expects a pointer, Git tracks the path with LFS — for every list of lines -/
-theorem fsck_implies_git (ls : List Line) (h : fsckSays ls = true) : gitSays ls = true := by
-  induction ls with
-  | nil => simp [fsckSays] at h
+theorem gitSays_cons (l : Line) (rest : List Line) :
+    gitSays (l :: rest) = if l.hit && l.hasFilter then (if (rest.any fun m => m.hit && m.hasFilter) then gitSays rest else l.lfs) else gitSays rest := by
+  rw [gitSays]
+
+theorem foldl_eq (ls : List Line) (acc : Bool) :
+    ls.foldl (fun acc l => if l.hit && l.hasFilter then l.lfs else acc) acc
+      = if (ls.any fun m => m.hit && m.hasFilter) then gitSays ls else acc := by
+  induction ls generalizing acc with
+  | nil => simp [gitSays]
   | cons l rest ih =>
-    simp only [fsckSays, List.any_cons, Bool.and_eq_true, Bool.or_eq_true, Bool.not_eq_true',
-      Bool.or_eq_false_iff] at h
-    obtain ⟨hany, hoff, hoffr⟩ := h
-    unfold gitSays
+    simp only [List.foldl_cons, List.any_cons]
+    rw [ih, gitSays_cons]
     by_cases hl : (l.hit && l.hasFilter) = true
-    · simp only [hl, if_true]
+    · by_cases hr : (rest.any fun m => m.hit && m.hasFilter) = true
+      · simp [hl, hr]
+      · simp [hl, hr]
+    · have hl' : (l.hit && l.hasFilter) = false := by simpa using hl
       by_cases hr : (rest.any fun m => m.hit && m.hasFilter) = true
-      · simp only [hr, if_true]
-        apply ih
-        simp only [fsckSays, Bool.and_eq_true, Bool.not_eq_true']
-        refine ⟨?_, hoffr⟩
-        -- some later matching filter line exists and none of them is "off": it is lfs
-        obtain ⟨m, hm, hmm⟩ := List.any_eq_true.mp hr
-        apply List.any_eq_true.mpr
-        refine ⟨m, hm, ?_⟩
-        have := List.any_eq_false.mp hoffr m hm
-        cases hl' : m.lfs <;> simp_all
-      · simp only [hr]
-        cases hlfs : l.lfs
-        · simp_all
-        · simp
-    · simp only [hl]
-      have hl' : (l.hit && l.hasFilter) = false := by simpa using hl
-      apply ih
-      simp only [fsckSays, Bool.and_eq_true, Bool.not_eq_true']
-      refine ⟨?_, hoffr⟩
-      rcases hany with h1 | h1
-      · simp_all
-      · exact h1
+      · simp [hl', hr]
+      · have hr' : (rest.any fun m => m.hit && m.hasFilter) = false := by simpa using hr
+        simp [hl', hr']
 
-/-- and nothing is missed as long as no matching line takes the path out of LFS: then both agree -/
-theorem git_implies_fsck_partial (ls : List Line) (hoff : (ls.any fun l => l.hit && l.hasFilter && !l.lfs) = false)
-    (h : gitSays ls = true) : fsckSays ls = true := by
+theorem gitSays_none (ls : List Line) (h : (ls.any fun m => m.hit && m.hasFilter) = false) : gitSays ls = false := by
   induction ls with
-  | nil => simp [gitSays] at h
+  | nil => rfl
   | cons l rest ih =>
-    simp only [List.any_cons, Bool.or_eq_false_iff] at hoff
-    obtain ⟨hl0, hr0⟩ := hoff
-    simp only [fsckSays, List.any_cons, hl0, hr0, Bool.or_false, Bool.not_false, Bool.and_true, Bool.or_eq_true]
-    unfold gitSays at h
-    by_cases hl : (l.hit && l.hasFilter) = true
-    · left
-      cases hlfs : l.lfs
-      · simp_all
-      · simp_all
-    · right
-      simp only [hl] at h
-      have := ih hr0 h
-      simpa [fsckSays, hr0] using this
+    simp only [List.any_cons, Bool.or_eq_false_iff] at h
+    rw [gitSays_cons]
+    simp [h.1, ih h.2]
 
-/-- D21 (known): a path taken out of LFS by one line and put back by a later one — Git tracks it, fsck does not
-    expect a pointer there.  The full statement `gitSays ls = fsckSays ls` is false. -/
-theorem d21_witness : gitSays [⟨true, true, false⟩, ⟨true, true, true⟩] = true ∧
-    fsckSays [⟨true, true, false⟩, ⟨true, true, true⟩] = false := by decide
+/-- THE FULL STATEMENT: fsck expects a pointer at a path exactly when Git tracks the path with LFS — for every list of
+    attribute lines, in particular when a later line puts a path back into LFS after an earlier one took it out
+    (the former known finding D21) -/
+theorem fsck_eq_git (ls : List Line) : fsckSays ls = gitSays ls := by
+  unfold fsckSays
+  rw [foldl_eq]
+  by_cases h : (ls.any fun m => m.hit && m.hasFilter) = true
+  · simp [h]
+  · have h' : (ls.any fun m => m.hit && m.hasFilter) = false := by simpa using h
+    simp [h', gitSays_none ls h']
+
+theorem fsck_implies_git (ls : List Line) (h : fsckSays ls = true) : gitSays ls = true := by
+  rw [← fsck_eq_git]; exact h
+
+theorem git_implies_fsck (ls : List Line) (h : gitSays ls = true) : fsckSays ls = true := by
+  rw [fsck_eq_git]; exact h
+
+/-- the input on which the full statement used to fail (D21): `-filter` then `filter=lfs` -/
+theorem d21_repaired : gitSays [⟨true, true, false⟩, ⟨true, true, true⟩] = true ∧
+    fsckSays [⟨true, true, false⟩, ⟨true, true, true⟩] = true := by decide
 
 /-- lines that say nothing about `filter` (lockable-only lines) change neither verdict, wherever they stand -/
 theorem filterless_line_irrelevant (pre post : List Line) (l : Line) (h : l.hasFilter = false) :
     fsckSays (pre ++ l :: post) = fsckSays (pre ++ post) ∧ gitSays (pre ++ l :: post) = gitSays (pre ++ post) := by
-  constructor
-  · simp [fsckSays, List.any_append, h]
-  · induction pre with
-    | nil => simp [gitSays, h]
+  have hg : gitSays (pre ++ l :: post) = gitSays (pre ++ post) := by
+    induction pre with
+    | nil => simp [gitSays_cons, h]
     | cons p pre ih =>
       simp only [List.cons_append]
-      unfold gitSays
+      rw [gitSays_cons, gitSays_cons]
       simp [List.any_append, h, ih]
+  exact ⟨by rw [fsck_eq_git, fsck_eq_git, hg], hg⟩
 
 /-- lines whose pattern does not match the path change nothing either -/
 theorem other_paths_lines_irrelevant (pre post : List Line) (l : Line) (h : l.hit = false) :
     fsckSays (pre ++ l :: post) = fsckSays (pre ++ post) ∧ gitSays (pre ++ l :: post) = gitSays (pre ++ post) := by
-  constructor
-  · simp [fsckSays, List.any_append, h]
-  · induction pre with
-    | nil => simp [gitSays, h]
+  have hg : gitSays (pre ++ l :: post) = gitSays (pre ++ post) := by
+    induction pre with
+    | nil => simp [gitSays_cons, h]
     | cons p pre ih =>
       simp only [List.cons_append]
-      unfold gitSays
+      rw [gitSays_cons, gitSays_cons]
       simp [List.any_append, h, ih]
+  exact ⟨by rw [fsck_eq_git, fsck_eq_git, hg], hg⟩
 
 example : fsckSays [⟨true, true, true⟩, ⟨true, false, false⟩] = true ∧ gitSays [⟨true, true, true⟩, ⟨true, false, false⟩] = true := by decide
 
